@@ -33,3 +33,33 @@ pub fn main(args: Args) {
         println!("panic {p:?}");
     }
 }
+
+/// SVDIFF — development probe: run one Veryl file (DesignGen layout: module Top, i_clk, i_rst)
+/// under one configuration with a random stimulus on both sides and print the first mismatch.
+pub fn diff(args: Args) {
+    let file = args.get("file").expect("--set file=").to_string();
+    let cfg = args.get("cfg").unwrap_or("posedge/async_low").to_string();
+    let cycles: usize = args.get("cycles").unwrap_or("40").parse().unwrap();
+    let show_sv = args.get("sv").is_some();
+    let seed = args.seed;
+    let text = std::fs::read_to_string(&file).unwrap();
+    let d = vgen::Design::from_text(&text);
+    let mut rng = Rng::for_case(seed, "SVDIFF", 0);
+    let stim = vgen::sim::stimulus(&d, &mut rng, cycles);
+    let (c, r) = cfg.split_once('/').unwrap();
+    let (c, r) = (c.to_string(), r.to_string());
+    let o = fresh_thread(STACK_64M, move || crate::c01::run_config(&d, &stim, &c, &r, false, None));
+    match o {
+        Err(p) => println!("panic {p:?}"),
+        Ok(o) => {
+            if show_sv {
+                println!("{}", o.sv);
+            }
+            println!("status={} detail={} codes={:?} compared={} xmasked={} xz={:?}", o.status, o.detail, o.codes, o.cmp.compared, o.cmp.xmasked, o.xz_vars);
+            match o.cmp.mismatch {
+                Some(m) => println!("MISMATCH {}", serde_json::to_string(&m).unwrap()),
+                None => println!("no mismatch"),
+            }
+        }
+    }
+}
